@@ -961,6 +961,25 @@ class FortranFile:
             self.nLines = len(self.contents_split)
             return None, True
 
+    def load_from_text(self, text: str) -> bool:
+        """Take the text the client holds for the file (``didOpen``)
+
+        Returns
+        -------
+        bool
+            boolean indicating if the file has changed, tabs aside
+            (``load_from_disk`` reads each of them as a blank)
+        """
+        contents_split = splitlines(text)
+        if [line.replace("\t", " ") for line in contents_split] == [
+            line.replace("\t", " ") for line in self.contents_split
+        ]:
+            self.contents_split[:] = contents_split
+            return False
+        self.hash = None
+        self.set_contents(contents_split)
+        return True
+
     def apply_change(self, change: dict) -> bool:
         """Apply a change to the file."""
 
